@@ -19,6 +19,11 @@ CLAIMED = {
             "lists). The model of _predicate.py is hand-written and compared with the real functions on every run.",
             "DESIGN.md §4 C13"),
 }
+CLAIMED["C12"] = ("Theorems C12_* (coq/Properties/C12.v): the iteration engine's callables and the SQL engine's translation "
+                  "(under SQLite's integer semantics for %, BETWEEN, IN, NOT/AND/OR) agree with direct evaluation for every "
+                  "expression/predicate tree, every range literal (all signs of start/stop/step) and every row. The "
+                  "range-literal arm of convert_predicate is regenerated from sql/_engine.py on every run; the SQL semantics "
+                  "is validated against a real SQLite database by the same run.", "DESIGN.md §4 C12")
 NOT_APPLICABLE = {}
 
 
